@@ -35,5 +35,5 @@ func checkC01(c *Check) {
 		oracleSelfCheck(c, cases, 300)
 	}
 	runProbes(c, bashProbeJudge)
-	runBashCases(c, cases)
+	runBashCases(c, withTight(cases, 4))
 }
